@@ -7,6 +7,10 @@ TECH = "bounded symbolic execution of the real code's go/ssa form, every branch/
 BASE = "cd /repo && go test -vet=off -count=1 -timeout 25m ./..."
 
 CLAIMED = {
+ "C12": dict(
+   text="Claimed clauses. (a) packet connection read: one recvfrom delivering one datagram of symbolic length 1..65507 from a symbolic source into a buffer of symbolic length 1..70000, inline or deferred start, would-block and errors, 2 poll cycles: exactly one callback per datagram, n = datagram length truncated to the buffer, bytes identical at an arbitrary index, sender IP and port reported. (b) packet connection write: datagram of symbolic length and destination: on success exactly one datagram emitted (retried, never duplicated, after EAGAIN/ENOBUFS) with the caller's length, bytes and destination; nothing emitted otherwise. (c) multicast peer: after the real NewUDPPeer (name resolution arbitrary, every socket call free to fail) and any sequence of 2/4 SetLoop/SetTTL/SetAll calls each succeeding or failing, TTL(), All(), Loop() (once set), LocalAddr() and Outbound() equal the kernel model's stored option values and bound address; Close releases the socket; a failing constructor leaks nothing.",
+   note="NOT APPLICABLE clauses (DESIGN §5): that joined/left/blocked groups and sources filter traffic (done inside the kernel's IP stack; the Go code only forwards arguments to setsockopt), bind forms and interface selection (host state), bursts from several real senders. UDPPeer's own read/write path (SetAsyncReadBuffer) is not covered yet. Known finding KF-C12-1 (inverted loop getter on a fresh peer) is reported as KNOWN-FINDING.",
+   ref="DESIGN.md §4 C12"),
  "C11": dict(
    text="(1) Inductive step of Claim, Commit, Consume, Reset (+FreeSpace/UsedSpace/Full/Size) from an ARBITRARY state of a buffer of any size = m pages, 1 <= m <= 2^28 (symbolic, so every power-of-two and non-power-of-two multiple), with every amount n >= 0 incl. above free/used: the invariant 0<=used<=size, 0<=head,tail<size, tail == (head+used) mod size, used+free == size is re-established; a claim is min(n, free) long, contiguous from &slice[tail], and no byte of it (ring position at an arbitrary offset) lies among the committed-unconsumed bytes; commits occupy consecutive ring positions; Consume frees the oldest bytes. (2) The real constructor on the environment model for every requested size in [-8192, 2^40] with every system call free to fail: accepts exactly the positive sizes, rounds up to a page multiple, maps both halves of the slice from the file, leaves no descriptor / temporary file behind, holds one mapping while alive which Destroy releases (idempotent); every failing path leaves no descriptor, file or mapping.",
    note="Not applicable clause: that the two mappings are physically the same memory (a kernel fact; the repository's own tests exercise it on real memory). /dev/shm vs fallback directory is a symbolic choice of the model.",
